@@ -575,6 +575,11 @@ class Sym:
             a3 = (NONE,) * (3 - len(args))
             return ("slice",) + ((NONE, args[0], NONE) if len(args) == 1 else args + a3)
         func = E(e.func)
+        # views of a dict comprehension are comprehensions of its values / keys / pairs
+        if func[0] == "attr" and func[2] in ("values", "keys", "items") and func[1][0] == "comp" and func[1][1] == "dict" and not args and not kws:
+            kv = func[1][2]
+            elt = kv[2] if func[2] == "values" else kv[1] if func[2] == "keys" else kv
+            return ("comp", "gen", elt, func[1][3])
         # reducers ignore the container kind of a comprehension argument
         if last in ("max", "min", "sum", "any", "all", "set", "sorted", "list", "tuple", "frozenset") and len(args) == 1 and args[0][0] == "comp" and args[0][1] in ("list", "gen", "set" if last in ("max", "min", "any", "all", "set", "frozenset") else "gen"):
             args = (("comp", "gen") + args[0][2:],)
